@@ -424,6 +424,43 @@ Proof.
 Qed.
 Print Assumptions C13_resetdep_record.
 
+(* "until forgotten" over reset-dep: the mark lives in the record reset-dep rewrites.  A task that carries it in a
+   record written by the configured checker -- or in a record with no checker entry, which is what `ignore` of a task
+   without saved state leaves -- still carries it after `reset-dep` in every argument form, whether the command
+   left the task alone, reported failed / skip, or processed it; and the record is again of that kind (so the
+   statement iterates over any number of reset-dep applications, and C13_ignore_persists / C13_ignore_wins_over_always
+   apply to the runs that follow) *)
+Theorem C13_ignore_mark_survives_reset_dep : forall (md5 : N -> N) v c fs sn tb args d T,
+  fixB v = true -> db_ok md5 fs sn d ->
+  status_is_ignore d T = true -> ck_changed c (getrec d T) = false ->
+  let out := resetdep_cmd md5 v c fs tb args d in
+  status_is_ignore (co_db out) T = true /\ ck_changed c (getrec (co_db out) T) = false.
+Proof.
+  intros md5 v c fs sn tb args d T HB Hok Hi Hc.
+  exact (resetdep_cmd_keeps_mark md5 v HB c fs sn tb args d T Hok (conj Hi Hc)).
+Qed.
+Print Assumptions C13_ignore_mark_survives_reset_dep.
+
+(* without the hypothesis on the checker the statement is false of the code as it is: reset-dep under the timestamp
+   checker of an ignored task whose record the md5 checker wrote (file dependency present, task not up-to-date)
+   reports "processed" and the record, mark included, is replaced -- the task is no longer ignored although it was
+   never forgotten (dependency.py 680-689: get_status removes the record of another checker; save_success f6ac8a0) *)
+Theorem C13_ignore_mark_reset_dep_other_checker_refuted :
+  exists (md5 : N -> N) c fs tb args d T,
+    status_is_ignore d T = true /\
+    let out := resetdep_cmd md5 current c fs tb args d in
+    co_res out = COk /\ co_log out = [(T, 2)] /\ status_is_ignore (co_db out) T = false.
+Proof.
+  exists (fun x => x), TS, (fs_of [(0%N, {| mtime := 2; size := 4; content := 1%N |})]),
+         [(0%N, {| c_task_dep := []; c_setup := []; c_calc_dep := []; c_subtask_of := None;
+                   c_def := {| file_dep := [0%N]; targets := []; uptodate := []; act_values := []; act_result := None |} |})],
+         [0%N],
+         (db_of [(0%N, {| r_deps := Some [0%N]; r_checker := Some MD5; r_saved := saved_of [(0%N, MD5state 1 4 0%N)];
+                          r_values := []; r_result := None; r_ignore := true |})]), 0%N.
+  vm_compute. repeat split.
+Qed.
+Print Assumptions C13_ignore_mark_reset_dep_other_checker_refuted.
+
 (* the hypothesis db_ok holds in every state a history of History.v reaches in which no file ever
    carried one mtime with two contents (hist_ok; writes with arbitrary mtimes included) -- C03 *)
 Theorem C13_resetdep_reachable : forall (md5 : N -> N) (size_of : N -> Z) ops,
@@ -491,6 +528,20 @@ Example C13_resetdep_nonvacuous :
   get_values (co_db out) 0%N = [(2%N, Some 3%N)] /\ get_result (co_db out) 0%N = Some 1%N /\
   co_log (resetdep_cmd (fun x => x) current MD5 (fun _ => None) tb0 [0%N] db0) = [(0%N, 0)] /\
   co_db (resetdep_cmd (fun x => x) current MD5 (fun _ => None) tb0 [0%N] db0) 0%N = db0 0%N.
+Proof. vm_compute. repeat split. Qed.
+
+(* `ignore a` (0), then reset-dep of every task under the checker that wrote the records: a (file 0 changed) is processed,
+   the hypotheses of C13_ignore_mark_survives_reset_dep hold before and the mark is there afterwards; so it is for g (1),
+   whose record is empty_rec + the mark (no checker entry).  Under the other checker a's mark goes, g's stays. *)
+Example C13_ignore_reset_dep_nonvacuous :
+  let d := co_db (ignore_cmd tb0 [0; 1]%N db0) in
+  let out c := resetdep_cmd (fun x => x) current c fs0 tb0 [] d in
+  map (status_is_ignore d) [0; 1; 2]%N = [true; true; true] /\
+  map (fun t => ck_changed MD5 (getrec d t)) [0; 1]%N = [false; false] /\
+  co_res (out MD5) = COk /\ co_log (out MD5) = [(0%N, 2); (1%N, 2); (2%N, 2); (3%N, 2); (4%N, 2); (5%N, 2)] /\
+  map (status_is_ignore (co_db (out MD5))) [0; 1; 2; 3]%N = [true; true; true; false] /\
+  map (fun t => ck_changed TS (getrec d t)) [0; 1]%N = [true; false] /\
+  map (status_is_ignore (co_db (out TS))) [0; 1; 2; 3]%N = [false; true; false; false].
 Proof. vm_compute. repeat split. Qed.
 
 (* the next run after `ignore s` (5): s is skipped, and so is c (4), which reaches s only through
